@@ -7,7 +7,7 @@ use std::collections::BTreeSet;
 use std::io::Write;
 use std::process::{Command, Stdio};
 
-const CHUNKS: [&[u8]; 22] = [b"a", b"b", b"abc", b"hello world", b" ", b"\t", b"\r", b"\0", b"\n", b"\n", b"\r\n", b"\0", "中".as_bytes(), "é".as_bytes(),
+const CHUNKS: [&[u8]; 26] = [b",", b",", b"k,v", b"x,y,", b"a", b"b", b"abc", b"hello world", b" ", b"\t", b"\r", b"\0", b"\n", b"\n", b"\r\n", b"\0", "中".as_bytes(), "é".as_bytes(),
     b"\xff", b"\xc3", b"\xe4\xb8", b"x", b"", b"foo", b"bar", b"\x1b[31mred\x1b[0m"];
 
 fn gen_stream(r: &mut Rng, valid_only: bool, long: bool) -> Vec<u8> {
@@ -53,14 +53,19 @@ fn in_window(bs: &[u8], term: u8) -> bool {
     true
 }
 
-fn read_items(bs: &[u8], read0: bool, complex: bool) -> Result<Vec<String>, String> {
+/// (texts, outputs) of the items; `with_nth` = None: plain reader / only --nth; Some(w): --with-nth w -d ,
+fn read_items(bs: &[u8], read0: bool, complex: bool, with_nth: Option<&str>, cap: usize) -> Result<(Vec<String>, Vec<String>), String> {
     let b2 = bs.to_vec();
+    let wn = with_nth.map(|s| s.to_string());
     guarded(move || {
         let mut opt = SkimItemReaderOption::default().read0(read0);
         if complex { opt = opt.nth("1.."); }
+        if let Some(w) = &wn { opt = opt.delimiter(",").with_nth(w); }
         let reader = SkimItemReader::new(opt.build());
-        let rx = reader.of_bufread(std::io::Cursor::new(b2));
-        rx.iter().map(|it| it.text().to_string()).collect()
+        // a small read buffer puts chunk boundaries everywhere (also between CR and LF)
+        let rx = reader.of_bufread(std::io::BufReader::with_capacity(cap, std::io::Cursor::new(b2)));
+        let items: Vec<_> = rx.iter().collect();
+        (items.iter().map(|it| it.text().to_string()).collect(), items.iter().map(|it| it.output().to_string()).collect())
     })
 }
 
@@ -84,9 +89,21 @@ fn main() {
         let term = if read0 { 0u8 } else { b'\n' };
         let input = format!("read0={} path={} bytes={:?}", read0, if complex { "DefaultSkimItem" } else { "simple" }, String::from_utf8_lossy(&bs));
         let inwin = in_window(&bs, term);
-        match read_items(&bs, read0, complex) {
+        let cap = *r.pick(&[1usize, 2, 3, 5, 8, 64, 8192]);
+        let with_nth: Option<&str> = if complex && r.chance(1, 2) { Some(*r.pick(&["2,1", "1..", "2..", "1", "-1,1", "3,2,1", ".."])) } else { None };
+        let input = format!("{} read_buffer={} with_nth={:?}", input, cap, with_nth);
+        match read_items(&bs, read0, complex, with_nth, cap) {
             Err(e) => fails.push(OracleFailure { case: id, what: format!("panic: {}", e), known: None, input }),
-            Ok(items) => {
+            Ok((texts, outputs)) => {
+                // what is printed for an item is its original line, whatever --with-nth / --nth say
+                let items = if with_nth.is_some() { outputs.clone() } else { texts };
+                {
+                    let want_out: Vec<String> = doc_lines(&bs, term).iter().map(|l| String::from_utf8_lossy(l).to_string()).collect();
+                    if inwin && outputs != want_out {
+                        let k = outputs.iter().zip(want_out.iter()).position(|(x, y)| x != y).unwrap_or(outputs.len().min(want_out.len()));
+                        fails.push(OracleFailure { case: id, what: format!("output of item {} is {:?}, its original line is {:?}", k, outputs.get(k), want_out.get(k)), known: None, input: input.clone() });
+                    }
+                }
                 let want: Vec<String> = doc_lines(&bs, term).iter().map(|l| String::from_utf8_lossy(l).to_string()).collect();
                 if inwin && items != want {
                     let k = items.iter().zip(want.iter()).position(|(x, y)| x != y).unwrap_or(items.len().min(want.len()));
@@ -102,11 +119,14 @@ fn main() {
                 if let Some(skbin) = &sk {
                     if id % sk_every == 0 && inwin && std::str::from_utf8(&bs).is_ok() && !bs.contains(&0x1b) {
                         let print0 = r.chance(1, 3);
-                        let term_q = *r.pick(&["", "a", "b", "o"]);
+                        // with a --with-nth that hides or reorders fields the query is matched against the shown text;
+                        // the oracle below matches whole lines, so it then uses the empty query
+                        let whole_shown = matches!(with_nth, None | Some("1..") | Some(".."));
+                        let term_q = if whole_shown { *r.pick(&["", "a", "b", "o"]) } else { "" };
                         let mut args: Vec<String> = vec!["-e".into(), "-f".into(), term_q.to_string()];
                         if read0 { args.push("--read0".into()); }
                         if print0 { args.push("--print0".into()); }
-                        if complex { args.push("--with-nth".into()); args.push("1..".into()); }
+                        if complex { args.push("-d".into()); args.push(",".into()); args.push(format!("--with-nth={}", with_nth.unwrap_or("1.."))); }
                         let child = Command::new(skbin).args(&args).stdin(Stdio::piped()).stdout(Stdio::piped()).stderr(Stdio::null()).spawn();
                         if let Ok(mut ch) = child {
                             { let mut si = ch.stdin.take().unwrap(); let _ = si.write_all(&bs); }
